@@ -1,3 +1,253 @@
-"""Extraction functions used by extract.py; each returns (lean source text, notes dict)."""
+"""Extraction functions used by extract.py; each returns (lean source text, notes dict).
 
-ALL = []
+The translator reads *runtime values* of the live Python classes under $REPO (metadata tables, resolved
+methods, constants) - not syntax - so reformatting or reordering source does not disturb it."""
+from __future__ import annotations
+
+import json
+
+
+def lean_str(s: str) -> str:
+    out = '"'
+    for ch in s:
+        if ch == '"':
+            out += '\\"'
+        elif ch == "\\":
+            out += "\\\\"
+        elif ch == "\n":
+            out += "\\n"
+        elif 32 <= ord(ch) < 127:
+            out += ch
+        else:
+            out += "\\u{%x}" % ord(ch)
+    return out + '"'
+
+
+def lean_int(n: int) -> str:
+    return f"({n})" if n < 0 else str(n)
+
+
+def qn(f):
+    if f is None:
+        return None
+    f = getattr(f, "__func__", f)
+    return getattr(f, "__qualname__", None)
+
+
+def resolved(cls):
+    return tuple(qn(getattr(cls, m, None)) for m in ("from_obj", "to_cbor", "from_cbor", "to_obj")) + (qn(cls.__init__),)
+
+
+def is_cbstr(cls):
+    f = cls.__dict__.get("to_cbor")
+    return f is not None and getattr(f, "__qualname__", "").startswith("cbstr.<locals>.Cbstr")
+
+
+O = "SuitObject"
+KINDS = {
+    # (from_obj, to_cbor, from_cbor, to_obj, __init__) -> kind
+    (f"{O}.from_obj", f"{O}.to_cbor", f"{O}.from_cbor", f"{O}.to_obj", "SuitUint.__init__"): "uint",
+    (f"{O}.from_obj", f"{O}.to_cbor", f"{O}.from_cbor", f"{O}.to_obj", "SuitInt.__init__"): "int",
+    (f"{O}.from_obj", f"{O}.to_cbor", f"{O}.from_cbor", f"{O}.to_obj", "SuitBool.__init__"): "bool",
+    (f"{O}.from_obj", f"{O}.to_cbor", f"{O}.from_cbor", f"{O}.to_obj", "SuitNull.__init__"): "null",
+    (f"{O}.from_obj", f"{O}.to_cbor", f"{O}.from_cbor", f"{O}.to_obj", "SuitTstr.__init__"): "tstr",
+    ("SuitBstr.from_obj", "SuitBstr.to_cbor", "SuitBstr.from_cbor", "SuitBstr.to_obj", "SuitBstr.__init__"): "bstr",
+    ("SuitBstr.from_obj", "SuitBstr.to_cbor", "SuitHex.from_cbor", "SuitBstr.to_obj", "SuitBstr.__init__"): "hex",
+    ("SuitBstr.from_obj", "SuitEmptyBstr.to_cbor", "SuitEmptyBstr.from_cbor", "SuitBstr.to_obj", "SuitBstr.__init__"): "emptyBstr",
+    (f"{O}.from_obj", "SuitBchar.to_cbor", "SuitBchar.from_cbor", f"{O}.to_obj", "SuitBchar.__init__"): "bchar",
+    (f"{O}.from_obj", "SuitEnum.to_cbor", "SuitEnum.from_cbor", f"{O}.to_obj", "SuitEnum.__init__"): "enum",
+    ("SuitUnion.from_obj", "SuitUnion.to_cbor", "SuitUnion.from_cbor", "SuitUnion.to_obj", f"{O}.__init__"): "union",
+    ("SuitTupleNamed.from_obj", "SuitTupleNamed.to_cbor", "SuitTupleNamed.from_cbor", "SuitTupleNamed.to_obj", f"{O}.__init__"): "tupleNamed",
+    ("SuitKeyValue.from_obj", "SuitKeyValue.to_cbor", "SuitKeyValue.from_cbor", "SuitKeyValue.to_obj", f"{O}.__init__"): "keyValue",
+    ("SuitKeyValue.from_obj", "SuitKeyValueTuple.to_cbor", "SuitKeyValueTuple.from_cbor", "SuitKeyValue.to_obj", f"{O}.__init__"): "keyValueTuple",
+    ("SuitKeyValueUnnamed.from_obj", "SuitKeyValueUnnamed.to_cbor", "SuitKeyValueUnnamed.from_cbor", "SuitKeyValueUnnamed.to_obj", f"{O}.__init__"): "keyValueUnnamed",
+    ("SuitTag.from_obj", "SuitTag.to_cbor", "SuitTag.from_cbor", "SuitTag.to_obj", f"{O}.__init__"): "tag",
+    ("SuitList.from_obj", "SuitList.to_cbor", "SuitList.from_cbor", "SuitList.to_obj", f"{O}.__init__"): "list",
+    ("SuitList.from_obj", "SuitList.to_cbor", "SuitList.from_cbor", "SuitComponentIdentifier.to_obj", f"{O}.__init__"): "list",
+    ("SuitBitfield.from_obj", "SuitBitfield.to_cbor", "SuitBitfield.from_cbor", "SuitBitfield.to_obj", f"{O}.__init__"): "bitfield",
+    ("SuitUUID.from_obj", "SuitBstr.to_cbor", "SuitUUID.from_cbor", "SuitUUID.to_obj", "SuitBstr.__init__"): "uuid",
+    ("SuitImageSize.from_obj", f"{O}.to_cbor", f"{O}.from_cbor", "SuitImageSize.to_obj", "SuitUint.__init__"): "imageSize",
+    ("SuitComponentVersion.from_obj", "SuitList.to_cbor", "SuitList.from_cbor", "SuitList.to_obj", f"{O}.__init__"): "version",
+    ("SuitDigestExt.from_obj", None, "SuitDigestExt.from_cbor", None, "object.__init__"): "digestExt",
+    ("SuitEncryptionInfoExt.from_obj", "SuitBstr.to_cbor", "SuitEncryptionInfoExt.from_cbor", "SuitEncryptionInfoExt.to_obj", "SuitBstr.__init__"): "encInfoExt",
+    ("SuitIntegratedPayloadMap.from_obj", "SuitKeyValueUnnamed.to_cbor", "SuitKeyValueUnnamed.from_cbor", "SuitKeyValueUnnamed.to_obj", f"{O}.__init__"): "payloadMap",
+    ("SuitHeaderMapOptional.from_obj", "SuitUnion.to_cbor", "SuitUnion.from_cbor", "SuitUnion.to_obj", f"{O}.__init__"): "headerMapOptional",
+}
+
+
+def build_schema():
+    from suit_generator.suit.envelope import SuitEnvelopeTagged, SuitEnvelopeTaggedSimplified
+    from suit_generator.suit.security import CoseSigStructure, CoseEncStructure, SuitHash, SuitDigestRaw
+    from suit_generator.suit.types.keys import suit_integrated_payloads, suit_integrated_dependencies
+
+    roots = [SuitEnvelopeTagged, SuitEnvelopeTaggedSimplified, CoseSigStructure, CoseEncStructure]
+    index = {}
+    order = []
+    notes = {"unmodelled": []}
+
+    def visit(cls):
+        if id(cls) in index:
+            return index[id(cls)]
+        index[id(cls)] = len(order)
+        order.append(cls)
+        return index[id(cls)]
+
+    descs = {}
+    i = 0
+    for r in roots:
+        visit(r)
+    while i < len(order):
+        cls = order[i]
+        i += 1
+        md = getattr(cls, "_metadata", None)
+        if is_cbstr(cls):
+            inner = cls.__bases__[0]
+            # the three inherited methods must be exactly the inner class's
+            if resolved(cls)[0] != resolved(inner)[0] or resolved(cls)[2:4] != resolved(inner)[2:4]:
+                descs[id(cls)] = ("unknown", inner.__name__, None)
+                notes["unmodelled"].append(cls.__name__)
+            else:
+                descs[id(cls)] = ("cbstr", inner.__name__, visit(inner))
+            continue
+        sig = resolved(cls)
+        kind = KINDS.get(sig)
+        name = cls.__name__
+        if kind is None:
+            descs[id(cls)] = ("unknown", name, None)
+            notes["unmodelled"].append(f"{name}: {sig}")
+            continue
+        if kind == "enum":
+            descs[id(cls)] = (kind, name, [(c.name, c.id) for c in md.children])
+        elif kind == "union":
+            descs[id(cls)] = (kind, name, [visit(c) for c in md.children])
+        elif kind == "headerMapOptional":
+            ch = md.children
+            descs[id(cls)] = (kind, name, (visit(ch[0]), visit(ch[1])))
+        elif kind == "tupleNamed":
+            descs[id(cls)] = (kind, name, [(k, visit(c)) for k, c in md.map.items()])
+        elif kind in ("keyValue", "keyValueTuple"):
+            es = [(k.name, k.id, visit(c), (k is suit_integrated_payloads or k is suit_integrated_dependencies)) for k, c in md.map.items()]
+            emb = None
+            if md.embedded:
+                emb = md.embedded[0].name
+            descs[id(cls)] = (kind, name, (es, emb))
+        elif kind in ("keyValueUnnamed",):
+            descs[id(cls)] = (kind, name, [(visit(k), visit(v)) for k, v in md.map.items()])
+        elif kind == "payloadMap":
+            (k, v), = md.map.items()
+            descs[id(cls)] = (kind, name, (visit(k), visit(v)))
+        elif kind == "tag":
+            descs[id(cls)] = (kind, name, (md.tag.value, md.tag.name, visit(md.children[0])))
+        elif kind == "list":
+            if md is None or not md.children:
+                descs[id(cls)] = ("unknown", name, None)
+                notes["unmodelled"].append(f"{name}: list without child class")
+            else:
+                descs[id(cls)] = (kind, name, (visit(md.children[0]), cls._group))
+        elif kind == "version":
+            descs[id(cls)] = (kind, name, visit(md.children[0]))
+        elif kind == "bitfield":
+            descs[id(cls)] = (kind, name, (visit(cls._bit_class), cls._bit_length))
+        elif kind == "digestExt":
+            descs[id(cls)] = (kind, name, visit(SuitDigestRaw))
+        else:
+            descs[id(cls)] = (kind, name, None)
+    hashes = [(n, a.digest_size) for n, a in SuitHash._hash_func.items()]
+    return order, descs, index, hashes, notes, (index[id(SuitEnvelopeTagged)], index[id(SuitEnvelopeTaggedSimplified)])
+
+
+def ty_lean(d):
+    kind, name, x = d
+    if kind in ("uint", "int", "bool", "null", "tstr", "bstr", "hex", "emptyBstr", "bchar", "uuid", "imageSize", "encInfoExt", "unknown"):
+        return f".{kind}"
+    if kind == "enum":
+        return ".enum [" + ", ".join(f"({lean_str(n)}, {lean_int(i)})" for n, i in x) + "]"
+    if kind == "union":
+        return ".union [" + ", ".join(str(c) for c in x) + "]"
+    if kind == "headerMapOptional":
+        return f".headerMapOptional {x[0]} {x[1]}"
+    if kind == "tupleNamed":
+        return ".tupleNamed [" + ", ".join(f"({lean_str(k)}, {c})" for k, c in x) + "]"
+    if kind in ("keyValue", "keyValueTuple"):
+        es, emb = x
+        el = "[" + ", ".join(f"⟨{lean_str(n)}, {lean_int(i)}, {c}, {'true' if m else 'false'}⟩" for n, i, c, m in es) + "]"
+        if kind == "keyValue":
+            return f".keyValue {el} " + ("none" if emb is None else f"(some {lean_str(emb)})")
+        return f".keyValueTuple {el}"
+    if kind == "keyValueUnnamed":
+        return ".keyValueUnnamed [" + ", ".join(f"({k}, {v})" for k, v in x) + "]"
+    if kind == "payloadMap":
+        return f".payloadMap {x[0]} {x[1]}"
+    if kind == "tag":
+        return f".tag {x[0]} {lean_str(x[1])} {x[2]}"
+    if kind == "list":
+        return f".list {x[0]} " + ("none" if x[1] is None else f"(some {x[1]})")
+    if kind == "version":
+        return f".version {x}"
+    if kind == "bitfield":
+        return f".bitfield {x[0]} {x[1]}"
+    if kind == "digestExt":
+        return f".digestExt {x}"
+    if kind == "cbstr":
+        return f".cbstr {x}"
+    raise ValueError(kind)
+
+
+def gen_schema():
+    order, descs, index, hashes, notes, (env, envs) = build_schema()
+    lines = ["import SuitVerif.Schema",
+             "/-! GENERATED by harness/extract.py from the live Python classes of /repo - do not edit. -/",
+             "namespace SuitVerif.Generated", "", "def classes : List (String × Ty) := ["]
+    body = []
+    for i, cls in enumerate(order):
+        d = descs[id(cls)]
+        body.append(f"  /- {i} -/ ({lean_str(d[1])}, {ty_lean(d)})")
+    lines.append(",\n".join(body))
+    lines.append("]")
+    lines.append("")
+    lines.append("def schema : Schema := {")
+    lines.append("  classes := classes,")
+    lines.append(f"  envelope := {env},")
+    lines.append(f"  envelopeSimplified := {envs},")
+    lines.append("  hashes := [" + ", ".join(f"({lean_str(n)}, {l})" for n, l in hashes) + "] }")
+    lines.append("")
+    lines.append("end SuitVerif.Generated")
+    notes["classes"] = len(order)
+    return "\n".join(lines) + "\n", notes
+
+
+def probe(fn):
+    try:
+        fn()
+        return "no-exception"
+    except ValueError:
+        return "ValueError"
+    except BaseException as e:  # noqa
+        return type(e).__name__
+
+
+def gen_guards():
+    import cbor2
+    from suit_generator.suit.security import CoseSign1, SuitEncryptionInfoExt
+    from suit_generator.suit.manifest import SuitParameterInvokeArgs, SuitRepPolicy
+
+    probes = {
+        "tupleIndex": ("CoseSign1.from_cbor(80)", lambda: CoseSign1.from_cbor(cbor2.dumps([]))),
+        "embeddedNone": ("SuitParameterInvokeArgs.from_cbor(a1186301)", lambda: SuitParameterInvokeArgs.from_cbor(cbor2.dumps({99: 1}))),
+        "bitfieldType": ("SuitRepPolicy.from_cbor(6178)", lambda: SuitRepPolicy.from_cbor(cbor2.dumps("x"))),
+        "encInfoFromCbor": ("SuitEncryptionInfoExt.from_cbor(00)", lambda: SuitEncryptionInfoExt.from_cbor(b"\x00")),
+    }
+    out = {}
+    flags = {}
+    for k, (desc, fn) in probes.items():
+        r = probe(fn)
+        out[k] = {"probe": desc, "outcome": r}
+        flags[k] = r == "ValueError"
+    text = ("import SuitVerif.Decode\n/-! GENERATED by harness/extract.py: outcome of the fixed probe inputs on the running code. -/\n"
+            "namespace SuitVerif.Generated\n\n"
+            "def guards : Decode.Guards := { tupleIndex := %s, embeddedNone := %s, bitfieldType := %s, encInfoFromCbor := %s }\n\n"
+            "end SuitVerif.Generated\n") % tuple("true" if flags[k] else "false" for k in ("tupleIndex", "embeddedNone", "bitfieldType", "encInfoFromCbor"))
+    return text, {"guards": out}
+
+
+ALL = [("Schema", gen_schema), ("Guards", gen_guards)]
